@@ -397,6 +397,13 @@ func TestVerifC01(t *testing.T) {
 				ok, msg = false, qMsg
 			}
 			extra = append(extra, qClasses...)
+			// ... so the server answers as one STARTED with that configuration
+			ro := ps.reference(t).run(q)
+			if d := plDiffObs(&o, &ro); ok && d != "" {
+				ok, msg = false, fmt.Sprintf("after the changes were served %s %s is not answered by the rules of the latest configuration: %s",
+					q.Name, dns.TypeToString[q.QType], d)
+			}
+			extra = append(extra, "queue-compared-with-fresh-server")
 			if !ok {
 				msg += fmt.Sprintf(" [history: %s]", strings.Join(ps.histDesc, "; "))
 			}
@@ -752,11 +759,13 @@ func TestVerifC01(t *testing.T) {
 		// two set_rules calls while the loop is away, then the real loop:
 		// the second call's rules are in force (a new name blocked, a name
 		// of the first call excepted)
-		first := []*vfRule{{Pattern: "||a.test^"}, {Pattern: "||x.test^"}}
-		second := []*vfRule{{Pattern: "||a.test^"}, {Pattern: "||x.test^"}, {Pattern: "||x.test^", White: true}, {Pattern: "||xa.test^"}}
-		for variant := 0; variant < 4; variant++ {
+		// (the universe has three unrelated roots: a.test with its
+		// subdomains, x.test, xa.test; the list is about xa.test)
+		first := []*vfRule{{Pattern: "||x.test^"}}
+		second := []*vfRule{{Pattern: "||x.test^"}, {Pattern: "||x.test^", White: true}, {Pattern: "||a.test^"}}
+		for variant := 0; variant < 8; variant++ {
 			c := base()
-			c.Lists = []*plList{{Name: "ads", Rules: []*vfRule{{ID: 100, Pattern: "||c.b.a.test^"}}}}
+			c.Lists = []*plList{{Name: "ads", Rules: []*vfRule{{ID: 100, Pattern: "||xa.test^"}}}}
 			ps := plNewServer(t, c)
 			ps.queueMode = true
 			g := qGen(rnd.Fork(8))
@@ -790,24 +799,57 @@ func TestVerifC01(t *testing.T) {
 				ps.qTouch(t, out)
 				ps.qSetURL(t, out, 0, false)
 				ps.qSetRules(t, out, second)
-				askA("c.b.a.test.")
+				askA("xa.test.")
 				ps.qLoop(t, out)
-				askA("c.b.a.test.")
+				askA("xa.test.")
 				ps.qSetURL(t, out, 0, true)
 				ps.qSetURL(t, out, 0, true)
 				ps.qTake(t, out)
 				ps.qInstall(t, out)
 				ps.qTake(t, out)
 				ps.qInstall(t, out)
-			default:
-				// a list added, another removed, an unknown one "removed", a known one "added"
+			case 3:
+				// a list added, an unknown one "removed", a known one "added",
+				// the custom rules changed; last of all a list removed
 				ps.qSetRules(t, out, first)
-				ps.qAddURL(t, out, &plList{Name: "more", Rules: []*vfRule{{ID: 300, Pattern: "||xa.test^"}}})
+				ps.qAddURL(t, out, &plList{Name: "more", Rules: []*vfRule{{ID: 300, Pattern: "||b.a.test^"}}})
 				ps.qAddKnownURL(t, out, 0, true)
 				ps.qRemoveURL(t, out, 0, true)
-				ps.qRemoveURL(t, out, 0, false)
-				ps.qSetRules(t, out, second[:3])
+				ps.qSetRules(t, out, second[:2])
 				ps.qLoop(t, out)
+				askA("xa.test.")
+				ps.qRemoveURL(t, out, 0, false)
+				ps.qLoop(t, out)
+				ps.qLoop(t, out)
+			case 4:
+				// the custom rules cleared behind a queued task
+				ps.qSetRules(t, out, second)
+				ps.qLoop(t, out)
+				askA("a.test.")
+				ps.qTouch(t, out)
+				ps.qSetRules(t, out, nil)
+				ps.qTake(t, out)
+				ps.qInstall(t, out)
+			case 5:
+				// last of all a list added, while the loop installs an older task
+				ps.qSetRules(t, out, first)
+				ps.qTake(t, out)
+				ps.qAddURL(t, out, &plList{Name: "more", Rules: []*vfRule{{ID: 300, Pattern: "||b.a.test^"}}})
+				ps.qInstall(t, out)
+				askA("b.a.test.")
+				ps.qLoop(t, out)
+			case 6:
+				// last of all a list switched off
+				ps.qSetRules(t, out, first)
+				ps.qSetURL(t, out, 0, false)
+				ps.qLoop(t, out)
+			default:
+				// last of all a list switched on again, behind a queued task
+				ps.qSetURL(t, out, 0, false)
+				ps.qLoop(t, out)
+				askA("xa.test.")
+				ps.qSetRules(t, out, first)
+				ps.qSetURL(t, out, 0, true)
 				ps.qLoop(t, out)
 			}
 			for _, n := range []string{"a.test.", "x.test.", "xa.test.", "b.a.test.", "c.b.a.test."} {
